@@ -345,7 +345,7 @@ impl Property for C03 {
     }
     fn cases(&self, tier: Tier) -> usize {
         match tier {
-            Tier::Quick => 320,
+            Tier::Quick => 800,
             Tier::Thorough => 2400,
         }
     }
